@@ -14,7 +14,8 @@ A. *Scope/assignment histories* (model checking).  Explicit-state BFS (``explore
         unset) on eight targets (reactor, core, assembly, block, component, and an assembly, a
         block and a component that lie outside the smaller scopes), through ``p.x = v``,
         ``p[x] = v`` and ``p.update``;
-     D  ``setNumberDensity`` + ``setTemperature`` on three components;
+     D  ``setNumberDensity`` + ``setTemperature`` on the component; D2 the same on two components
+        outside the component scope (one of them outside the assembly);
      G  ``changePitch`` of the core grid and of the block's pin grid;
      H  ``Block.setHeight`` (assembly axial bounds, z-parameters of the sibling block);
      Q  cache-filling queries (areas, volumes, masses, material densities) - no assignment;
@@ -34,8 +35,11 @@ A. *Scope/assignment histories* (model checking).  Explicit-state BFS (``explore
        untouched reactor).  While a scope is open, states reached through different enter/exit
        sequences inside it are *not* merged (back-up slots are hidden state);
      * both derived-quantity oracles are switched off after an exit that kept a changed
-       temperature / number-density / height / dimension parameter: the cached volume and area
-       parameters are then restored, as stated, to values that no longer match the kept ones.
+       temperature / number-density / height / dimension parameter (the cached volume and area
+       parameters are then restored, as stated, to values that no longer match the kept ones) and
+       after a density/temperature/height/dimension assignment to an object *outside* an open
+       scope (the statement quantifies over assignments inside the scope; the raw oracle, which
+       includes "outside objects keep their values", stays on).
 B. *Copies* in every reached state of A (scopes open or not): ``copy.deepcopy`` and a pickle round
    trip of a component, a block and an assembly (core and reactor in states up to a smaller
    history length): parameter values equal, fresh serial numbers for deep copies / the original's
@@ -102,7 +106,9 @@ KEEPNAMES = [
 ]
 # params that are caches of public queries are observed through the query (full observation)
 RAW_EXCL = ("area",)
-MUTS = ("P", "D", "G", "H", "Q", "S", "L")
+MUTS = ("P", "D", "D2", "G", "H", "Q", "S", "L")
+# objects whose derived quantities (volumes, masses) an operation changes by assignment
+FOOT = {"D": ("C",), "D2": ("C2", "C3"), "H": ("B",), "L": ("B2",)}
 DERIVED_INPUTS = {"temperatureInC", "numberDensities", "height"} | {"od", "id", "op", "ip", "mult"}
 
 
@@ -372,9 +378,15 @@ def mut_P(s):
 def mut_D(s):
     n = s.n("D")
     f = 1.0 + 0.03 * n + 0.001 * s.seed
-    C, C2, C3 = s.o["C"], s.o["C2"], s.o["C3"]
+    C = s.o["C"]
     C.setNumberDensity("U235", 0.004 * f)
     C.setTemperature(600.0 + 11.0 * n + s.seed)
+
+
+def mut_D2(s):
+    n = s.n("D2")
+    f = 1.0 + 0.03 * n + 0.001 * s.seed
+    C2, C3 = s.o["C2"], s.o["C3"]
     C2.setTemperature(470.0 + 7.0 * n + s.seed)
     C2.setNumberDensity("FE", 0.07 * f)
     C3.setNumberDensity("ZR", 0.009 * f)
@@ -421,7 +433,7 @@ def mut_L(s):
     gap.setDimension("od", 0.5 + 0.01 * n + 0.001 * s.seed)
 
 
-MUTF = {"P": mut_P, "D": mut_D, "G": mut_G, "H": mut_H, "Q": mut_Q, "S": mut_S, "L": mut_L}
+MUTF = {"P": mut_P, "D": mut_D, "D2": mut_D2, "G": mut_G, "H": mut_H, "Q": mut_Q, "S": mut_S, "L": mut_L}
 
 # ---------------------------------------------------------------------------------------------
 # violation keys from observation differences
@@ -565,6 +577,14 @@ def apply(s, op, check, viols, case):
         return "ok"
 
     f = MUTF[name]
+    for t in FOOT.get(name, ()):
+        tp = path_to(s.r, s.o[t])
+        for fr in s.stack:
+            if tp[: len(fr["path"])] != fr["path"]:
+                # an assignment *outside* an open scope that changes derived quantities: the statement
+                # quantifies over assignments inside the scope; restored cached volumes of in-scope
+                # objects may legitimately disagree with the outside change (raw oracles stay on)
+                s.tainted = True
     try:
         f(s)
     except Exception as e:
@@ -985,7 +1005,7 @@ def _quick_family():
     # grids/heights/caches do not depend on the keep-set (except height, kept in set 2)
     for a, c, ka, kc in (("R", "K", 0, 0), ("K", "A", 0, 2), ("A", "B", 2, 0), ("B", "B", 0, 0)):
         out.append(([[a, ka], [c, kc]], ["G", "H", "Q"]))
-    out.append(([["B", 0], ["C", 0]], ["D", "Q"]))
+    out.append(([["B", 0], ["C", 0]], ["D", "D2", "Q"]))
     out.append(([["A", 2], ["B", 2]], ["S", "L"]))
     out.append(([["R", 1], ["B", 0]], ["L", "Q"]))
     return out
@@ -1030,7 +1050,7 @@ def scenarios(ctx):
             sc([[a, ka], [c, kc]], ["G", "H", "Q"], wide)
     for a, c in (("B", "C"), ("A", "B"), ("R", "C"), ("C", "C2")):
         for ka, kc in ((0, 0), (1, 0)):
-            sc([[a, ka], [c, kc]], ["D", "Q"], wide)
+            sc([[a, ka], [c, kc]], ["D", "D2", "Q"], wide)
     for tri in (("R", "A", "B"), ("K", "B", "C"), ("B", "B", "B"), ("C", "B", "R")):
         for ks in ((0, 0, 0), (1, 2, 0)):
             sc([[o, k] for o, k in zip(tri, ks)], ["P", "G"], wide)
